@@ -19,13 +19,13 @@ import (
 )
 
 type Prog struct {
-	W       *World
-	CS      *Contracts
-	SSA     *ssa.Program
-	Pkgs    map[string]*packages.Package
-	Fset    *token.FileSet
-	ModPath string
-	funcs   map[string]*ssa.Function // by key
+	W        *World
+	CS       *Contracts
+	SSA      *ssa.Program
+	Pkgs     map[string]*packages.Package
+	Fset     *token.FileSet
+	ModPath  string
+	funcs    map[string]*ssa.Function // by key
 	gwriters map[*ssa.Global][]string
 }
 
@@ -74,6 +74,8 @@ type Enc struct {
 	contractsUsed map[string]bool
 	initFactsDone map[string]bool
 	initUnit      bool
+	revealed      map[string]bool
+	revealDone    map[string]bool
 	failed        error
 }
 
@@ -148,7 +150,7 @@ type loopInfo struct {
 
 func NewEnc(p *Prog, unit string) *Enc {
 	return &Enc{P: p, Unit: unit, declSet: map[string]bool{}, base: map[string]Val{}, names: map[string]int{},
-		assumedUsed: map[string]bool{}, unspecExtern: map[string]bool{}, abstractions: map[string]bool{}, inlined: map[string]bool{}, ghostVarsUsed: map[string]bool{}, contractsUsed: map[string]bool{}, initFactsDone: map[string]bool{}}
+		assumedUsed: map[string]bool{}, unspecExtern: map[string]bool{}, abstractions: map[string]bool{}, inlined: map[string]bool{}, ghostVarsUsed: map[string]bool{}, contractsUsed: map[string]bool{}, initFactsDone: map[string]bool{}, revealed: map[string]bool{}, revealDone: map[string]bool{}}
 }
 
 func (e *Enc) fresh(prefix string, s Sort) Val {
@@ -253,6 +255,21 @@ func (o *Oblig) Query(timeoutMs int) string {
 	}
 	b.WriteString("(check-sat)\n")
 	return b.String()
+}
+
+// queryAllDecls is Query with every declaration of the unit and the definitional facts
+// added from index factsFrom on (used for model extraction, where entry-heap constants
+// and named terms may have been introduced after the obligation was generated).
+func (o *Oblig) queryAllDecls(factsFrom int) string {
+	saved := o.NDecls
+	o.NDecls = len(o.Enc.decls)
+	q := o.Query(0)
+	o.NDecls = saved
+	var extra strings.Builder
+	for _, f := range o.Enc.facts[factsFrom:] {
+		extra.WriteString("(assert " + f + ")\n")
+	}
+	return strings.Replace(q, "(check-sat)\n", extra.String()+"(check-sat)\n", 1)
 }
 
 // ---------------------------------------------------------------------------
@@ -476,6 +493,38 @@ func (e *Enc) initZero(st *State, loc Val, t types.Type) {
 		return
 	}
 	e.store(st, loc, w.ZeroOf(t), t)
+}
+
+// initGhost: mutexes inside a freshly allocated object are not held.
+func (e *Enc) initGhost(st *State, loc Val, t types.Type, depth int) {
+	if depth > 4 {
+		return
+	}
+	if nt, ok := t.(*types.Named); ok && nt.Obj().Pkg() != nil && nt.Obj().Pkg().Path() == "sync" {
+		for _, g := range []string{"held", "rheld"} {
+			if _, declared := e.P.CS.GhostFields[g]; !declared {
+				continue
+			}
+			if g == "rheld" && nt.Obj().Name() != "RWMutex" {
+				continue
+			}
+			if nt.Obj().Name() != "Mutex" && nt.Obj().Name() != "RWMutex" {
+				continue
+			}
+			name := "G_" + g
+			h := e.heap(st, name, ArraySort(SLoc, SBool))
+			nh := e.fresh(name, h.S)
+			e.fact(Eq(nh, Store(h, loc, False)))
+			st.heaps[name] = nh
+		}
+		return
+	}
+	if stt, ok := t.Underlying().(*types.Struct); ok {
+		si := e.P.W.StructOf(t)
+		for i := 0; i < stt.NumFields(); i++ {
+			e.initGhost(st, FieldLoc(loc, si.Fields[i].FID), stt.Field(i).Type(), depth+1)
+		}
+	}
 }
 
 // zeroRange sets n elements starting at base to zero using a quantified fact.
